@@ -301,7 +301,7 @@ def campaign_flow(ck: Check, n_random: int) -> None:
     camp.evaluations += 1
     if headerflow.print_tokens() != len(ps) + sum(1 for n in _all_prints_without_file() if n):
         ck.disagree(camp, {"what": "print calls of generate()"}, f"{len(ps)} translated", f"{headerflow.print_tokens()} `print(` tokens")
-    for name in ("body", "custom_file_header", "header", "filename", "modules"):
+    for name in headerflow.flow_names():
         camp.evaluations += 1
         got = sum(1 for _, n, _, _ in headerflow.bindings() if n == name)
         want = headerflow.store_tokens(name)
